@@ -408,6 +408,8 @@ class Node:
                 self.listener_escapes.append(e)
                 w.log_event('exception-escaped-the-bus-listener', self.name, repr(e))
             return
+        if frame['ext'] is False:
+            return True      # MessageListener.on_message_received drops frames with an 11-bit identifier
         try:
             self.ecu.notify(frame['id'], data, w.now)
         except Exception as e:
